@@ -169,7 +169,10 @@ func (r *envelopeReader) Unmarshal(message any) *Error {
 
 func (r *envelopeReader) Read(env *envelope) *Error {
 	prefixes := [5]byte{}
-	prefixBytesRead, err := r.reader.Read(prefixes[:])
+	// The transport may deliver the prefix in several chunks, so a single Read
+	// isn't enough. ReadFull returns io.EOF only if the stream ended before the
+	// first byte, and io.ErrUnexpectedEOF if it ended inside the prefix.
+	prefixBytesRead, err := io.ReadFull(r.reader, prefixes[:])
 
 	switch {
 	case (err == nil || errors.Is(err, io.EOF)) &&
